@@ -407,3 +407,19 @@ package j5convert
 //@   ensures pk.required: result1 == nil && extof(ext_j5pb.E_Key, result0.Options) != nil && extof(ext_j5pb.E_Key, result0.Options).PrimaryKey ==>
 //@   |   vrules(result0.Options) != nil && vrules(result0.Options).Required != nil && *vrules(result0.Options).Required
 //@   ensures conflict: node.Schema.ExplicitlyOptional && node.Schema.Required ==> result1 != nil
+
+// ---- references to objects and oneofs are accepted wherever the type is defined (C07) -----------------------------
+// A field whose reference resolves to a message type compiles: nothing about the referenced type beyond
+// "it is a message" may reject it (types come from j5s files, proto files and dependencies, and only the
+// first kind records more than that in its summary). typeOf/resolves NAME what resolveType returned
+// (definitional, assumed: free postcondition of a checked function).
+//@ spec func typeOf(ww *conversionVisitor, ref *sourcewalk.RefNode) *TypeRef
+//@ spec func resolves(ww *conversionVisitor, ref *sourcewalk.RefNode) bool
+//@ func (*conversionVisitor).resolveType
+//@   free ensures named: (result1 == nil) == resolves(ww, ref) && (result1 == nil ==> result0 == typeOf(ww, ref))
+//@ spec func oneofSch(node sourcewalk.FieldNode) *schema_j5pb.OneofField = as(*schema_j5pb.Field_Oneof, node.Schema).Oneof
+//@ spec func objectSch(node sourcewalk.FieldNode) *schema_j5pb.ObjectField = as(*schema_j5pb.Field_Object, node.Schema).Object
+//@ func buildField
+//@   ensures oneof.accept: typeis(node.Schema, *schema_j5pb.Field_Oneof) && oneofSch(node) != nil && resolves(ww, node.Ref) && typeOf(ww, node.Ref).MessageRef != nil ==> result1 == nil
+//@   ensures object.accept: typeis(node.Schema, *schema_j5pb.Field_Object) && objectSch(node) != nil && resolves(ww, node.Ref) && typeOf(ww, node.Ref).MessageRef != nil ==> result1 == nil
+//@   ensures enum.accept: typeis(node.Schema, *schema_j5pb.Field_Enum) && enumSch(node) != nil && enumSch(node).Rules == nil && resolves(ww, node.Ref) && typeOf(ww, node.Ref).EnumRef != nil ==> result1 == nil
